@@ -25,25 +25,39 @@ from vlib import cbool, clist, cq  # noqa: E402
 from translate import stagewiring as tsw  # noqa: E402
 
 CLAIM = {
-    "text": "Unbounded theorems about an executable Coq model of the Newton driver (newton_raphson / finalize_iteration / "
-            "set_damping_factor) for every observation oracle, budget and tolerance setting: at most max_iter iterations; "
-            "converged implies that in the last iteration every error and the residual were within tolerance (NaN / inf never "
-            "pass) and, with automatic damping, alpha = 1; alpha stays on {1, 0.1, 0.01}, falls only if all errors grew, "
-            "recovers x10; exactly the rejected variables are restored; pipeflow returns only if every executed loop converged "
-            "with converged = True and tables written by the final extraction, PipeflowNotConverged - and any other exception once the set-up phase is through - leaves "
-            "converged = False and all-NaN tables for any prior state. The stage wiring theorem (every (new, old) pair returned by a solve "
-            "function is named, tested against its own tolerance and restored into its own pit column) is re-proved over a "
-            "table regenerated from pipeflow.py on every run. The hand model is tied by exact correspondence with the real "
-            "driver under scripted solve functions and with real pipeflow runs on generated nets.",
-    "note": "All theorems are closed under the global context (no axioms); PrimFloat primitives occur only in the Example "
-            "pinning the alpha ladder to IEEE doubles. Full strength since /repo 2c402d4 / 95f42ce: a NaN change of any "
-            "component makes the error NaN for any shape of the result vectors (nan_never_counts); an exception raised while "
-            "results are extracted, or escaping from inside a stage, leaves converged = False and all-NaN tables "
-            "(pipeflow_outcome, extraction_failure_leaves_no_results). Exceptions raised before net.converged = False "
-            "(init_options, create_lookups, initialize_pit) keep the old flag (modelled, outside the property's wording). "
-            "Known finding: bidirectional mode + automatic damping restores rejected hydraulic vectors into the heat-transfer "
-            "active pit (ValueError when the two pits differ in size). That the solve functions report honest changes / "
-            "residuals is C01/C02/C10. The old copy being taken before the update is checked syntactically by the translator only.",
+    "text": "Unbounded theorems (21, all axiom-free) about an executable Coq model of the Newton driver (newton_raphson / "
+            "finalize_iteration / set_damping_factor), the three stage functions and pipeflow, for every observation oracle, "
+            "budget, tolerance setting, event pattern and prior net state: at most max_iter iterations; converged implies that "
+            "in the last iteration every error and the residual were within tolerance and, with automatic damping, alpha = 1; "
+            "at vector level (any shape) an error within a finite tolerance makes every component of the new and old vectors a "
+            "number, a NaN change or a NaN in the linear solution makes the error NaN, and (with C04's write-back theorem) "
+            "every row marked supplied receives a number, every other row NaN; both damping strategies accept an iteration "
+            "only through the same tolerance test (damping_same_fixed_points); alpha stays on {1, 0.1, 0.01}, falls only if "
+            "all errors grew, recovers x10; exactly the rejected variables are restored; pipeflow returns only if every "
+            "executed loop converged, with converged = True and tables written by the final extraction; "
+            "PipeflowNotConverged - and any other exception once the set-up phase is through, incl. exceptions during "
+            "extraction and exceptions escaping from a Newton loop - leaves converged = False and all-NaN tables; "
+            "_internal_data is dropped however a stage ends. The stage wiring theorems (every (new, old) pair returned by a "
+            "solve function is named, tested against its own tolerance, restored into its own pit column; where the restore "
+            "lands) and the control-flow skeletons are re-proved over tables regenerated from pipeflow.py on every run. The "
+            "hand model is tied by exact correspondence with the real driver under scripted solve functions and with real "
+            "pipeflow call sequences on generated nets (recorded iterations replayed inside Coq).",
+    "note": "All theorems are closed under the global context (Print Assumptions; coqchk in the thorough tier); PrimFloat "
+            "primitives occur only in the Example pinning the alpha ladder to IEEE doubles. Kept visible as refuted / partial: "
+            "post_loop_exception_keeps_converged_flag_refuted (an exception raised inside a stage after its loop converged - "
+            "rerun_*, extract_results_active_pit - is outside pipeflow's try/except and leaves converged = True; no API input "
+            "reaches it today; pipeflow_outcome excludes it by the named hypothesis nopost_env); "
+            "bidirectional_restore_targets_other_pit_refuted with restore_targets_own_pit_partial / "
+            "bidirectional_restore_guarantee (known finding C05-bidirectional-automatic-restore-shape: hydraulic vectors of the "
+            "bidirectional stage are restored into the heat-transfer active pit; ValueError when the pits differ in size). "
+            "Hypotheses: tolerance list at least as long as the variable list and (new, old) of equal length - both are facts "
+            "of the generated wiring table / of the real solve functions, exercised by the correspondence; finite tolerances "
+            "for the finiteness theorem (an infinite or NaN user tolerance is the user's choice). Exceptions raised before "
+            "net.converged = False (init_options, create_lookups, initialize_pit) keep the old flag (modelled, outside the "
+            "property's wording). Monitored only, not proved: that the solve functions report honest changes / residuals "
+            "(C01/C02/C10); finiteness of derived result columns computed from the primary unknowns by extract_all_results "
+            "(the theorem covers the primary unknowns p, mdot, T, T_out written back by extract_results_active_pit); the "
+            "old copy being taken before the update is checked syntactically by the translator only.",
     "technique": "Coq proof over hand-written state-machine model + generated wiring table + exact model/implementation "
                  "correspondence (scripted iterations, recorded real runs)",
     "design": "DESIGN.md 4/C05 + design_notes/C05.md",
@@ -403,6 +417,11 @@ def classify(exc, frames, runs):
         flags["heat_unsupplied"] = True
     elif "use_given_hydraulic_results" in frames or (frames and frames[-1] == "pipeflow"):
         pass                                            # hyd_flag test / bad mode: decided by the model
+    elif in_stage and "newton_raphson" not in frames and \
+            any(f in frames for f in ("rerun_hydraulics", "rerun_heat_transfer", "extract_results_active_pit")):
+        # raised inside the stage after its loop converged (model transition ri_post)
+        flags["post"] = ({"hydraulics": "hydraulics", "heat_transfer": "heat", "bidirectional": "bidirectional"}[in_stage[-1]],
+                         "PostRerun" if any(f.startswith("rerun_") for f in frames) else "PostExtract")
     elif in_stage and "newton_raphson" in frames:
         # the exception escapes from inside a stage (solve function, reduce_pit ...): model transition ri_escape
         flags["escape"] = ({"hydraulics": "hydraulics", "heat_transfer": "heat", "bidirectional": "bidirectional"}[in_stage[-1]],
@@ -551,7 +570,9 @@ def run_scenarios(ctx, n_scen):
 
             def ri(lst, stage):
                 lst = lst or [D.DUMMY_RUN]
-                lits = [D.run_in_coq(r, esc[1] if (esc and esc[0] == stage and i == len(lst) - 1) else "NoEscape")
+                post = flags.get("post")
+                lits = [D.run_in_coq(r, esc[1] if (esc and esc[0] == stage and i == len(lst) - 1) else "NoEscape",
+                                     post[1] if (post and post[0] == stage and i == len(lst) - 1) else "NoPost")
                         for i, r in enumerate(lst)]
                 lits = [l.replace("ri_rerun := false", "ri_rerun := true") if i < len(lits) - 1 else l
                         for i, l in enumerate(lits)]
@@ -575,7 +596,10 @@ def run_scenarios(ctx, n_scen):
     for s in range(0, len(seqs), size):
         txt = HEADER + "Definition seqs : list (netst * list pcall) := [\n%s\n].\nEval vm_compute in (summary nseq_ok seqs).\n" \
             % ";\n".join(seqs[s:s + size])
+        import time as _t
+        _t0 = _t.time()
         trip, out = ctx.coq_counts(txt, "pipeflow_cases_%d" % (s // size))
+        ctx.extra.setdefault("pipeflow_coq_s", []).append(round(_t.time() - _t0, 1))
         if not trip:
             ctx.broken("correspondence", "C05.pipeflow vs pandapipes.pipeflow (coqc failed)", out[-800:])
             continue
